@@ -586,6 +586,34 @@ def run(ctx):
             rig.label = ("witness",)
             rig.conclude(world_box)
             rigs.append(rig)
+        # ---- exhaustive exploration of the statement-level MODEL on the generated code (a search, not a proof): every
+        #      schedule of the lock-holder abstraction; an offending schedule, if any, is replayed on the real code
+        ex = ctx.driver("C24", ["S exhaust generated %d" % g], timeout=900)
+        if ex is not None:
+            f = dict(x.split("=", 1) for x in ex[0].split(" ", 4))
+            ctx.extra["statement_level_model_exploration"] = {
+                "states": int(f["states"]), "quiescent": int(f["quiescent"]), "bad_quiescent": int(f["bad"]),
+                "deadlocks": int(f["deadlocks"]),
+                "note": "breadth-first over all schedules of the statement-level model (3 lock holders) on the "
+                        "generated instruction lists; supports the serialisability step, is not a proof"}
+            if int(f["bad"]) or int(f["deadlocks"]):
+                ctx.broken.append({"kind": "model-exploration", "what": "statement-level model of pipe.py",
+                                   "detail": "the model reaches %s bad quiescent state(s) and %s deadlock(s); example "
+                                             "schedule: %s" % (f["bad"], f["deadlocks"], f["example"][:600])})
+                rig = Rig(world_box[0], table)
+                rig.s_new()
+                rig.start_fail = None
+                for tok in f["example"].split(";"):
+                    w = tok.split()
+                    if w[0] == "start":
+                        rig.s_start(int(w[1]), w[2])
+                    else:
+                        rig.s_step(int(w[1]))
+                rig.tag = "model-counterexample"
+                rig.overlap = True
+                rig.label = ("model-counterexample",)
+                rig.conclude(world_box)
+                rigs.append(rig)
         # ---- pairs
         setups = []
         for data in ([], ["feed1"], ["feed2"], ["feed1", "feed2"]):
@@ -757,7 +785,11 @@ META = {
     "note": ("Partial in one respect: the step from 'pipe.py calls hold the shared OrPipe lock / the PosixPipe RLock' to "
              "'pipe.py calls are atomic' (serialisability of lock-protected regions) is not proved in Lean; it is covered "
              "by the exhaustive line-level enumeration of operation pairs on the real code each run (oracle: select() vs "
-             "buffers at quiescence, no deadlock). Trusted: Lean kernel + 3 axioms; pv.lib_coop scheduler and pv.lib_pipegen "
+             "buffers at quiescence, no deadlock) and by a breadth-first exploration, on every run, of ALL schedules of "
+             "the statement-level model over the generated instruction lists (lock-holder abstraction, ~21.7k states: no "
+             "bad quiescent state, no deadlock; an offending schedule would be replayed on the real code) — a search, "
+             "not a proof. A kernel-checked version of that exploration (~3x10^5 interpreter steps under `decide`) and "
+             "a hand-written pc-indexed refinement proof were both judged out of reach in the time available. Trusted: Lean kernel + 3 axioms; pv.lib_coop scheduler and pv.lib_pipegen "
              "translator; select()/FIONREAD. Not modelled: WindowsPipe, Channel.close() (closes the descriptor itself), "
              "partial reads (they do not touch the event). BufferedPipe glue (feed/read/empty/close/set_event event calls) "
              "and Channel.fileno/_handle_eof/_unlink are hand-modelled and tied by correspondence."),
